@@ -16,7 +16,11 @@ After == loc' = Tr[l].after
 TSet == Ev("SetLocator") /\ SetLocator(Tr[l].l) /\ After
 TData == Ev("SignData") /\ SignData /\ After
 TIssue == Ev("Issue") /\ Issue(Tr[l].fn) /\ issued'[Len(issued')].kl = Tr[l].kl /\ After
-TNext == TSet \/ TData \/ TIssue
+\* [a |-> "Recheck", same: <<BOOLEAN ...>>]: is each certificate issued so far (returned buffer, returned name, parse
+\* results held since) still what it was when it was issued
+TRecheck == /\ l <= Len(Tr) /\ Tr[l].a = "Recheck" /\ l' = l + 1 /\ UNCHANGED <<tid, vars>>
+            /\ Len(Tr[l].same) = Len(issued) /\ \A i \in 1..Len(issued) : Tr[l].same[i]
+TNext == TSet \/ TData \/ TIssue \/ TRecheck
 TSpec == TInit /\ [][TNext]_tvars
 Mark == TLCSet(tid, Max2(TLCGet(tid), l))
 Post == \A i \in 1..Len(Traces) : TLCGet(i) = Len(Traces[i].ev) + 1 \/ PrintT(<<"REJECTED", i, TLCGet(i)>>)
